@@ -22,6 +22,63 @@ var families = map[string]func(r *rand.Rand, i int) *Program{
 	"order":     genOrder,
 	"multiq":    genMultiQ,
 	"tunewrap":  genTuneWrap,
+	"persist":   genPersist,
+	"crash":     genCrash,
+	"dist":      genDist,
+}
+
+// persist: persistent (acknowledging) queues with preloaded entries, undecodable entries and adapter faults.
+func genPersist(r *rand.Rand, i int) *Program {
+	g := &gen{r: r, k: 100}
+	p := &Program{Kind: "plain", Conc: 1 + r.Intn(3), Queues: []string{[]string{"pers", "persprio"}[r.Intn(2)]}, WFYields: r.Intn(2), Errs: true}
+	n := r.Intn(5)
+	for j := 0; j < n; j++ {
+		p.Preload = append(p.Preload, j)
+		if r.Intn(5) == 0 {
+			p.BadEntry = append(p.BadEntry, j)
+		}
+	}
+	for j := 0; j < 8; j++ {
+		p.Outcomes = append(p.Outcomes, []int{0, 0, 0, 2}[r.Intn(4)])
+	}
+	if r.Intn(3) == 0 {
+		p.Faults = append(p.Faults, Fault{Op: []string{"enq", "deq", "ack"}[r.Intn(3)], Nth: 1 + r.Intn(3)})
+	}
+	a := g.adds(r.Intn(4))
+	p.Threads = [][]Op{append(a, Op{Op: "wuf"})}
+	if r.Intn(3) == 0 {
+		p.Threads = append(p.Threads, []Op{{Op: "pause"}, {Op: "yield"}, {Op: "resume"}})
+	}
+	return p
+}
+
+// crash: the process dies after a random number of adapter calls; a fresh worker recovers.
+func genCrash(r *rand.Rand, i int) *Program {
+	p := genPersist(r, i)
+	p.Faults = nil
+	p.BadEntry = nil
+	p.Outcomes = nil
+	p.CrashAt = 1 + r.Intn(14)
+	return p
+}
+
+// dist: 1..3 consumers on one shared distributed adapter, items present before binding and added later.
+func genDist(r *rand.Rand, i int) *Program {
+	g := &gen{r: r, k: 100}
+	p := &Program{Kind: "plain", Conc: 1 + r.Intn(2), Queues: []string{[]string{"dist", "distprio"}[r.Intn(2)]}, WFYields: r.Intn(2), Consumers: 1 + r.Intn(3), Errs: r.Intn(2) == 0}
+	n := r.Intn(4)
+	for j := 0; j < n; j++ {
+		p.Preload = append(p.Preload, j)
+	}
+	a := g.adds(1 + r.Intn(4))
+	p.Threads = [][]Op{a}
+	if r.Intn(2) == 0 {
+		p.Threads = append(p.Threads, g.adds(1+r.Intn(2)))
+	}
+	if r.Intn(5) == 0 {
+		p.Faults = append(p.Faults, Fault{Op: "deq", Nth: 1 + r.Intn(3)})
+	}
+	return p
 }
 
 // tunewrap: TunePool with values around the int → uint32 conversion boundary.
